@@ -57,7 +57,14 @@ def confirm(name, suite):
         src = os.path.join("/tmp/seed2", sid, "out", {"D": "A", "E": "B", "F": "C"}[var])
     sdir = os.path.join(VERIF, "seeded", sid, var)
     os.makedirs(sdir, exist_ok=True)
+    adapted = False
+    try:
+        adapted = bool(json.load(open(os.path.join(sdir, "meta.json"))).get("adapted"))
+    except Exception:
+        pass
     for f in ("patch.diff", "demo_test.go", "demo_path.txt", "demo.txt", "meta.json"):
+        if adapted and f in ("patch.diff", "meta.json"):
+            continue  # re-created by hand against a newer HEAD: keep
         if os.path.exists(os.path.join(src, f)):
             shutil.copy(os.path.join(src, f), os.path.join(sdir, f))
     res = {"seed_change": name}
